@@ -89,6 +89,9 @@ REPLIES = {
     'long': '220-' + 'x' * 600 + '\r\n220 ok\r\n',
     'many': ''.join('214-line %d\r\n' % i for i in range(40)) + '214 done\r\n',
     'two': '220 one\r\n331 two\r\n',
+    'digits2': '220-banner\r\n2024-05-01: maintenance window\r\n1500 users allowed\r\n220x\r\n'
+               '220\r\n220 end\r\n',
+    'digits3': '230-\r\n999\r\n12 34\r\n2300 x\r\n230 ok\r\n331 next\r\n',
 }
 
 
@@ -280,7 +283,7 @@ def run_job(job):
     elif job['kind'] == 'reply':
         data = REPLIES[job['name']].encode('latin-1')
         n = len(data)
-        nrep = 2 if job['name'] == 'two' else 1
+        nrep = 2 if job['name'] in ('two', 'digits3') else 1
         expect = []
         pos = 0
         for _ in range(nrep):
@@ -341,7 +344,7 @@ def replay(rec):
             obs['writes']
     if rec['kind'] == 'reply':
         data = REPLIES[rec['name']].encode('latin-1')
-        nrep = 2 if rec['name'] == 'two' else 1
+        nrep = 2 if rec['name'] in ('two', 'digits3') else 1
         got = read_replies(data, rec['cuts'], nrep)
         expect, pos = [], 0
         for _ in range(nrep):
